@@ -3,6 +3,7 @@ include absent LRUs, unknown webentities and foreign prefixes.  Judged on
 bytes only: the simulated disk's write log gains no event and both stores
 are unchanged, whatever the call returns or raises."""
 import itertools
+from .model import stems
 
 from . import lrugen
 from .engine import short
@@ -35,6 +36,26 @@ def read_only_calls(ctx):
             targets.append((w, m.we_prefixes(weids[-1] if weids[-1] != w else weids[0])))  # another webentity's prefixes
     else:
         targets.append((1, lrus[:1]))
+    # legal but unusual argument combinations: no id given, lists mixing attached prefixes, plain
+    # nodes (a linked page, its parent) and LRUs the index does not hold, in both orders
+    gone = absent[:1] or [b"s:http|h:com|h:nowhere|"]
+    linked = sample(ctx, sorted(set(a for a, _ in m.links) | set(b for _, b in m.links)), 2)
+    plain = []
+    for l in linked:
+        st = stems(l)
+        plain.append(l)
+        if len(st) > 1:
+            plain.append(b"".join(st[:-1]))
+    plain = [l for l in plain if l not in m.pref][:3] or nodes[:1]
+    w0 = wsel[0] if wsel else 1
+    p0 = m.we_prefixes(w0) if wsel else lrus[:1]
+    for w in (None, w0):
+        targets.append((w, p0)) if w is None else None
+        targets.append((w, plain[:1] + gone))
+        targets.append((w, gone + plain[:1]))
+        targets.append((w, list(p0) + gone))
+        if len(plain) > 1:
+            targets.append((w, plain[:2] + gone))
     for l in lrus:
         yield "retrieve_prefix", lambda l=l: t.retrieve_prefix(l)
         yield "retrieve_webentity", lambda l=l: t.retrieve_webentity(l)
